@@ -234,6 +234,16 @@ func (b *AllegraTransactionBody) UnmarshalCBOR(cborData []byte) error {
 	return nil
 }
 
+// MarshalCBOR returns the original bytes of a decoded transaction body, so that a
+// transaction re-assembled from its stored components (e.g. one taken from a block)
+// keeps its original encoding and therefore its fee-relevant size
+func (b *AllegraTransactionBody) MarshalCBOR() ([]byte, error) {
+	if b.Cbor() != nil {
+		return b.Cbor(), nil
+	}
+	return cbor.EncodeGeneric(b)
+}
+
 func (b *AllegraTransactionBody) Inputs() []common.TransactionInput {
 	ret := make([]common.TransactionInput, 0, len(b.TxInputs.Items()))
 	for _, input := range b.TxInputs.Items() {
